@@ -26,4 +26,10 @@ TEXTS = {
         "note": "Drives darling_core::derive::* in-process (what macro/src/lib.rs calls after parse_macro_input!); a panic is observed through a panic hook.",
         "technique": "grammar-based property testing (proptest bytes -> structured decoder), totality oracle",
     },
+    "C10": {
+        "level": "Generated declarations against an independent rule table: exhaustive over all ordered 1/2/3-tuples of field options, container options (per derive) and variant options in every split over attributes (45 709 declarations), plus random declarations with invalid values, foreign names, magic fields and every body shape (6*10^4 quick, 3.2*10^6 thorough). Checks impl iff no rule violated, every certainly-reportable rule has a diagnostic inside the offending tokens, every diagnostic lies inside the tokens of a violated rule.",
+        "ref": "DESIGN.md section 3 C10 and Appendix C",
+        "note": "The rule table is hand-transcribed from the statement; which violations are 'certain to be reported' follows the statement's scoping (one element / fields of one struct / variants of one enum). One listed known finding (default after from_ident) is attributed by pattern.",
+        "technique": "exhaustive enumeration of small option tuples + grammar-based property testing against a rule-table oracle",
+    },
 }
